@@ -8,6 +8,7 @@ import (
 	"fmt"
 	"io"
 	"net/http"
+	"net/mail"
 	"net/url"
 	"os"
 	"strings"
@@ -39,20 +40,68 @@ func (h *hist) deliver() {
 		addrs = append(addrs, deliveryAddress(r, h.naming, n))
 	}
 	sender := r.Pick([]string{"sender@origin.test", "Bounce+1@Origin.Example"})
-	msg := genMessage(r, sender, addrs)
 	viaSMTP := r.Chance(1, 3)
+	// The first delivery to a long name always goes through a real SMTP session: that the name
+	// can receive mail is then a fact of this history, not an inference from the policy code.
+	for _, n := range targets {
+		if h.long[n] && !h.longSMTP[n] {
+			viaSMTP = true
+		}
+	}
+	// One delivery in five carries content a MIME parser rejects or has to guess about (half of
+	// them the shapes enmime rejects outright), see oddShapes.
+	var odd *oddShape
+	if r.Chance(1, 5) {
+		if r.Bool() {
+			odd = &oddShapes[r.Intn(oddUnparseable)]
+		} else {
+			odd = &oddShapes[oddUnparseable+r.Intn(len(oddShapes)-oddUnparseable)]
+		}
+		if odd.noSMTP && viaSMTP {
+			odd = nil
+		}
+	}
+	viaStore := odd != nil && !viaSMTP && r.Chance(1, 3)
+	msg := genMessage(r, sender, addrs, odd)
 	h.curName = "" // a delivery is never filed under the slash key
 	op := "deliver-direct"
-	if viaSMTP {
+	switch {
+	case viaSMTP:
 		op = "deliver-smtp"
+	case viaStore:
+		op = "deliver-store"
 	}
-	h.log(step{Op: op, Name: strings.Join(targets, " , "), Note: "rcpt " + strings.Join(addrs, " , ")})
+	note := "rcpt " + strings.Join(addrs, " , ")
+	if odd != nil {
+		note += " ; odd content: " + odd.name
+	}
+	h.log(step{Op: op, Name: strings.Join(targets, " , "), Note: note})
 
 	if viaSMTP {
 		if !h.deliverSMTP(sender, addrs, msg) {
 			return
 		}
 		h.c.Count("deliveries_smtp", 1)
+		for _, n := range targets {
+			if h.long[n] {
+				h.longSMTP[n] = true
+				h.c.Count("long_name_smtp_deliveries", 1)
+			}
+		}
+	} else if viaStore {
+		// Straight into the store, the way StoreManager.Deliver hands a message over.
+		var to []*mail.Address
+		for _, t := range msg.expTo {
+			to = append(to, parseExp(t))
+		}
+		for _, n := range targets {
+			content := []byte("Return-Path: <" + sender + ">\r\nReceived: from harness ([127.0.0.1]) by inbucket.test  for <" + n + ">\r\n" + string(msg.raw))
+			if _, err := h.we.Store.AddMessage(sut.NewDelivery(n, parseExp(msg.expFrom), to, msg.subject, time.Now(), content)); err != nil {
+				h.violation("C14:delivery:store-add-error", fmt.Sprintf("Store.AddMessage to %q (content %s): %v", n, odd.name, err))
+				return
+			}
+		}
+		h.c.Count("deliveries_store", 1)
 	} else {
 		origin, err := h.we.Policy.ParseOrigin(sender)
 		if err != nil {
@@ -128,8 +177,44 @@ func (h *hist) learnNew(n string, s sut.MsgSnap, msg gmsg) bool {
 	}
 	h.m.Add(&model.Msg{ID: s.ID, Mailbox: n, From: msg.expFrom, To: msg.expTo, Subject: msg.subject, Date: s.Date,
 		Size: s.Size, Source: s.Source})
+	if msg.odd != nil {
+		// no extra: the renderings of the parsed message are judged on the metadata only
+		h.odd[n+"\x00"+s.ID] = msg.odd.name
+		h.c.Count("odd_deliveries", 1)
+		h.c.Count("odd_shape:"+msg.odd.name, 1)
+		return true
+	}
 	h.extras[n+"\x00"+s.ID] = &extra{text: msg.text, rawFrom: msg.rawFrom}
 	return true
+}
+
+// oddName returns the name of the odd content shape of a model message ("" = well-formed).
+func (h *hist) oddName(w *model.Msg) string {
+	if w == nil {
+		return ""
+	}
+	return h.odd[w.Mailbox+"\x00"+w.ID]
+}
+
+// parseExcused reports whether the answer st to a request for the PARSED rendering of w is a 500
+// for a message with odd content: MIME decoding is not this property, so that answer is counted,
+// not judged.  (A 404 for a stored message, or a 500 from any route that does not need the parsed
+// message, is judged as ever.)
+func (h *hist) parseExcused(op string, w *model.Msg, st int) bool {
+	if st != 500 || h.oddName(w) == "" {
+		return false
+	}
+	h.c.Count("odd_parsed_read_500", 1)
+	h.sig["odd."+op+".500"] = true
+	return true
+}
+
+// oddSeen records that operation op was judged strictly against a stored message with odd content.
+func (h *hist) oddSeen(op string, w *model.Msg) {
+	if o := h.oddName(w); o != "" {
+		h.c.Count("odd_judged:"+op, 1)
+		h.sig["odd."+op+"."+o] = true
+	}
 }
 
 func (h *hist) deliverSMTP(sender string, addrs []string, msg gmsg) bool {
@@ -252,6 +337,23 @@ func (h *hist) apiCall() {
 	useClient := kind <= 5 && r.Chance(1, 2)
 	if len(h.m.List(n)) > 0 {
 		h.judged++
+	}
+	if h.long[n] {
+		iface := "rest"
+		switch {
+		case kind >= 6:
+			iface = "ui"
+		case useClient:
+			iface = "client"
+		}
+		how := pick(strings.Contains(s, "@"), "address", "bare")
+		h.c.Count("long_name_calls", 1)
+		h.c.Count("long_name_calls:"+how, 1)
+		h.c.Count("long_name_op:"+iface+"-"+strings.TrimPrefix(opName, "ui-"), 1)
+		if len(s) > 64 && how == "bare" {
+			h.c.Count("long_name_calls_over64_bare", 1)
+		}
+		h.sig["long."+how+"."+iface+"-"+opName] = true
 	}
 	switch {
 	case kind >= 6:
@@ -386,9 +488,13 @@ func (h *hist) restCall(opName, n, s string) {
 		case "show":
 			w := h.resolve(n, id)
 			st, _, data, ok := h.request(op, "GET", p, nil)
+			if ok && h.parseExcused(op, w, st) {
+				return
+			}
 			if !ok || !h.wantStatus(op, "GET "+p, st, pick(w != nil, 200, 404), s, data) {
 				return
 			}
+			h.oddSeen(op, w)
 			if w != nil {
 				var got apiMsg
 				if err := json.Unmarshal(data, &got); err != nil {
@@ -409,6 +515,7 @@ func (h *hist) restCall(opName, n, s string) {
 				h.violation("C14:"+op+":wrong-source", fmt.Sprintf("GET %s returned %d bytes that differ from the stored source of %s (%d bytes)", p, len(data), w.ID, len(w.Source)))
 				return
 			}
+			h.oddSeen(op, w)
 			h.sigAdd(op, class, s, fmt.Sprint(st))
 		case "seen", "delete":
 			method := pick(opName == "seen", "PATCH", "DELETE")
@@ -424,10 +531,12 @@ func (h *hist) restCall(opName, n, s string) {
 				h.judgeLatestMutation(op, opName, method+" "+p, n, s, st, data)
 				return
 			}
+			target := h.m.Get(n, id)
 			exists := h.applyMutation(opName, n, id)
 			if !h.wantStatus(op, method+" "+p, st, pick(exists, 200, 404), s, data) {
 				return
 			}
+			h.oddSeen(op, target)
 			h.sigAdd(op, class, s, fmt.Sprint(st))
 		}
 	}
@@ -485,6 +594,9 @@ func (h *hist) judgeList(op, n string, got []apiMsg) {
 	for i, w := range want {
 		if !h.judgeMsg(op, n, w, &got[i], true) {
 			return
+		}
+		if h.oddName(w) != "" {
+			h.c.Count("odd_listed", 1)
 		}
 	}
 }
@@ -577,6 +689,9 @@ func (h *hist) uiCall(op, n, s string) {
 	}
 	w := h.resolve(n, id)
 	st, _, data, ok := h.request(op, "GET", p, nil)
+	if ok && op != "ui-source" && h.parseExcused(op, w, st) {
+		return
+	}
 	if !ok || !h.wantStatus(op, "GET "+p, st, pick(w != nil, 200, 404), s, data) {
 		return
 	}
@@ -584,6 +699,7 @@ func (h *hist) uiCall(op, n, s string) {
 	if w == nil {
 		return
 	}
+	h.oddSeen(op, w)
 	switch op {
 	case "ui-message":
 		var got apiMsg
@@ -597,7 +713,7 @@ func (h *hist) uiCall(op, n, s string) {
 			h.violation("C14:"+op+":wrong-source", fmt.Sprintf("GET %s returned %d bytes that differ from the stored source of %s (%d bytes)", p, len(data), w.ID, len(w.Source)))
 		}
 	case "ui-html":
-		if len(data) != 0 {
+		if len(data) != 0 && h.oddName(w) == "" {
 			h.violation("C14:"+op+":wrong-text", fmt.Sprintf("GET %s returned %s for a text/plain message", p, fw.Q(string(data))))
 		}
 	}
@@ -637,6 +753,17 @@ func (h *hist) clientErr(op, method, call string, err error, exists bool) bool {
 		return false
 	}
 	return true
+}
+
+// clientParseExcused is parseExcused for a client method that returns the parsed message.
+func (h *hist) clientParseExcused(op, method, call string, err error, w *model.Msg) bool {
+	if err == nil || h.oddName(w) == "" || !strings.HasSuffix(err.Error(), "500 Internal Server Error") {
+		return false
+	}
+	h.c.Count("client_calls", 1)
+	h.c.Count("client:"+method, 1)
+	h.noteStatus(op, "client."+call, 0, fmt.Sprint(err))
+	return h.parseExcused(op, w, 500)
 }
 
 func hdrToAPI(x *client.MessageHeader) apiMsg {
@@ -686,7 +813,11 @@ func (h *hist) clientCall(opName, n, s string) {
 		case 0:
 			h.log(step{Op: op, Name: s, ID: w.ID, Note: "MessageHeader.GetMessage"})
 			m, err := hd.GetMessage()
+			if h.clientParseExcused(op, "MessageHeader.GetMessage", fmt.Sprintf("ListMailbox(%q)[%d].GetMessage()", s, i), err, w) {
+				return
+			}
 			if h.clientErr(op, "MessageHeader.GetMessage", fmt.Sprintf("ListMailbox(%q)[%d].GetMessage()", s, i), err, true) {
+				h.oddSeen(op+":MessageHeader.GetMessage", w)
 				g := msgToAPI(m)
 				h.judgeMsg(op+":MessageHeader.GetMessage", n, w, &g, false)
 				h.sigAdd(op, "hdr.GetMessage", s, "ok")
@@ -695,6 +826,7 @@ func (h *hist) clientCall(opName, n, s string) {
 			h.log(step{Op: op, Name: s, ID: w.ID, Note: "MessageHeader.GetSource"})
 			b, err := hd.GetSource()
 			if h.clientErr(op, "MessageHeader.GetSource", fmt.Sprintf("ListMailbox(%q)[%d].GetSource()", s, i), err, true) {
+				h.oddSeen(op+":MessageHeader.GetSource", w)
 				h.judgeClientSource(op+":MessageHeader.GetSource", n, w, b)
 				h.sigAdd(op, "hdr.GetSource", s, "ok")
 			}
@@ -703,6 +835,7 @@ func (h *hist) clientCall(opName, n, s string) {
 			h.applyMutation("delete", n, w.ID)
 			err := hd.Delete()
 			if h.clientErr(op, "MessageHeader.Delete", fmt.Sprintf("ListMailbox(%q)[%d].Delete()", s, i), err, true) {
+				h.oddSeen(op+":MessageHeader.Delete", w)
 				h.sigAdd(op, "hdr.Delete", s, "ok")
 			}
 		}
@@ -723,9 +856,13 @@ func (h *hist) clientCall(opName, n, s string) {
 		case "show":
 			w := h.resolve(n, id)
 			m, err := h.cl.GetMessage(s, id)
+			if h.clientParseExcused(op, "GetMessage", fmt.Sprintf("GetMessage(%q, %q)", s, id), err, w) {
+				return
+			}
 			if !h.clientErr(op, "GetMessage", fmt.Sprintf("GetMessage(%q, %q)", s, id), err, w != nil) {
 				return
 			}
+			h.oddSeen(op, w)
 			h.sigAdd(op, class, s, pick(w != nil, "ok", "404"))
 			if w == nil {
 				return
@@ -758,6 +895,7 @@ func (h *hist) clientCall(opName, n, s string) {
 			if w != nil {
 				h.judgeClientSource(op, n, w, b)
 			}
+			h.oddSeen(op, w)
 			h.sigAdd(op, class, s, pick(w != nil, "ok", "404"))
 		case "seen", "delete":
 			method := pick(opName == "seen", "MarkSeen", "DeleteMessage")
@@ -783,8 +921,10 @@ func (h *hist) clientCall(opName, n, s string) {
 				}
 				return
 			}
+			target := h.m.Get(n, id)
 			exists := h.applyMutation(opName, n, id)
 			if h.clientErr(op, method, call, err, exists) {
+				h.oddSeen(op, target)
 				h.sigAdd(op, class, s, pick(exists, "ok", "404"))
 			}
 		}
